@@ -1,9 +1,11 @@
 (* C04 model driver: evaluates the extracted ABFModel at floats on case lines from stdin.
    Case:  ABF nd lower*nd width*nd nx*nd periodic*nd full min update cap maxf*nd szd same sub*nd hidej other*nd scaled sfac*(prod nx)
-              tsf late ndata (cnt0*(prod nx) grad0*(prod nx * nd))*ndata nevents event*nevents
+              tsf step0 late ndata (cnt0*(prod nx) grad0*(prod nx * nd))*ndata nevents event*nevents
           late = number of steps the engine made before the bias was defined (0: defined at the start)
           event = 0 x*nd e*nd o*nd j*nd boundary apply w*nd (a step; w = forces of the biases bypassing the extended Lagrangian)
-                | 1 cnt*(prod nx) grad*(prod nx * nd)       (restart: state file loaded into a new instance)
+                | 1 cnt*(prod nx) grad*(prod nx * nd) newcfg [full min cap maxf*nd]
+                                                             (restart: state file loaded into a new instance, whose
+                                                              configuration may differ in fullSamples/minSamples/maxForce)
                 | 2 cnt*(prod nx) grad*(prod nx * nd)       (reload: state file loaded into the running instance)
    Output (one line): per step "bin .. fbin .. cf .. tf .. af .. cnt .. sum .. go .." joined by " ; ",
    then " ; SPEC cnt .. sum .." = the per-bin count and minus the summed forces of the attributed samples
@@ -59,6 +61,8 @@ let () =
                      c_subtract = sub; c_hidej = hidej; c_other = other; c_scaled = scaled; c_sfac = sfac } in
            (* data read through inputPrefix *)
            let tsf = ni () in
+           let step0 = ni () in      (* absolute number of the first step of the job (setstep) *)
+           let kk = (z_of_int tsf, z_of_int step0) in
            let late = ni () in
            let ndata = ni () in
            let addr_of (ix : z list) : int =
@@ -74,6 +78,7 @@ let () =
                  List.init nd (fun k -> if a >= 0 && a < nt then grad0arr.(a * nd + k) else 0.0) in
                (cnt0, grad0) in
            let datasets = List.init ndata (fun _ -> read_dataset ()) in
+           let newcfgs = ref [] in
            let nevents = ni () in
            let events = List.init nevents (fun _ ->
                match ni () with
@@ -82,8 +87,14 @@ let () =
                  let a = nb () in
                  let w = nflist nd in
                  EvStep { i_x = x; i_e = e; i_o = o; i_j = j; i_boundary = b; i_apply = a; i_w = w }
-               | 1 -> EvRestart (read_dataset ())
+               | 1 ->
+                 let d = read_dataset () in
+                 let nc = if nb () then begin
+                     let f = ni () in let m = ni () in let cp = nb () in let mf = nflist nd in Some (f, m, cp, mf) end else None in
+                 newcfgs := nc :: !newcfgs;
+                 EvRestart d
                | _ -> EvReload (read_dataset ())) in
+           let newcfgs = ref (List.rev !newcfgs) in
            let ixs = all_indices nx in
            let zs l = String.concat " " (List.map (fun z -> string_of_int (int_of_z z)) l) in
            let fs l = String.concat " " (List.map hex l) in
@@ -98,6 +109,7 @@ let () =
                (String.concat " " (List.map (fun ix ->
                     fs (List.init nd (fun k -> grad_out fops cnt sum (List.map z_of_int ix) (nat_of_int k)))) ixs)) in
            let buf = Buffer.create 4096 in
+           let cr = ref c in
            let start = if late > 0 then abf_init_late fops c (z_of_int (late - 1)) else abf_init fops c in
            let s0 = ref (List.fold_left (abf_add_data fops c) start datasets) in
            let s = ref !s0 in
@@ -106,11 +118,21 @@ let () =
            let xcur = ref [] in       (* values last computed by the variables (they are not recomputed while asleep) *)
            List.iter (fun ev -> match ev with
              | EvRestart _ | EvReload _ ->
+               (match ev with
+                | EvRestart _ ->
+                  (match !newcfgs with
+                   | Some (f, m, cp, mf) :: rest ->
+                     cr := { !cr with c_full = z_of_int f; c_min = z_of_int m; c_cap = cp; c_maxf = mf }; newcfgs := rest
+                   | None :: rest -> newcfgs := rest
+                   | [] -> ())
+                | _ -> ());
+               let c = !cr in
                s := abf_event_apply fops c !s ev; s0 := !s; outs := []; seg := []
              | EvStep i ->
+               let c = !cr in
                seg := i :: !seg;
-               if tsf <= 1 || awake (z_of_int tsf) (st_clk !s i) then xcur := i.i_x;
-               let (s1, o) = if tsf > 1 then abf_mstep fops c (z_of_int tsf) !s i else abf_step fops c !s i in
+               if tsf <= 1 || awake kk (st_clk !s i) then xcur := i.i_x;
+               let (s1, o) = if tsf > 1 then abf_mstep fops c kk !s i else abf_step fops c !s i in
                (* The grids of the model are functions idx -> value, each step wrapping the previous one in a
                   closure: evaluate them once on the bins of the grid and continue with table look-ups
                   (same function on every index: outside the table the original closure answers). *)
@@ -130,6 +152,7 @@ let () =
            (* the specification evaluated on the trace since the last state-file event (informational) *)
            let s0 = !s0 in
            let tr = List.combine (List.rev !seg) (List.rev !outs) in
+           let c = !cr in
            let att = attributed fops c tr in
            let scnt ix = z_of_int (int_of_z (s0.s_cnt ix) + List.length (samples_in ix att)) in
            let ssum ix = List.init nd (fun k ->
